@@ -10,7 +10,7 @@ CLAIMED = {
  "C06": ("exploration", "deterministic simulation: chunked-upload transport seam + byte-exact model comparison", "Payload bytes compared byte-for-byte across chunkings, sizes around page/overflow boundaries, byte classes, restarts.", "real socket path not covered (HTTP codec stubbed)", "§8 C06"),
  "C07": ("exploration", "deterministic simulation: temporal re-read oracle inside seeded histories", "Previously accepted versions are re-read after every later operation, restart and at the end and compared with the model record.", "model trusted", "§8 C07"),
  "C08": ("exploration", "deterministic simulation: probe-then-add pairs on the same state + model table", "GetChildVersion answers are compared with the model and, directly, with the AddVersion issued on the same state.", "model trusted", "§8 C08"),
- "C10": ("exploration", "deterministic simulation: seeded snapshot-focused histories vs window rule model", "AddSnapshot decisions compared with the five-version window rule; snapshot position monotonic; declined => projection unchanged.", "open corner (v = non-nil chain base) accepts either outcome", "§8 C10"),
+ "C10": ("exploration", "deterministic simulation: seeded snapshot-focused histories vs window rule model", "AddSnapshot decisions compared with the five-version window rule in seeded histories, plus an exhaustive enumeration of the small scope (chain length 0..8 x base x snapshot position x class of v = 840 cases on both backends and entries); snapshot position monotonic; declined => projection unchanged.", "open corner (v = non-nil chain base) accepts either outcome", "§8 C10"),
  "C11": ("exploration", "deterministic simulation: GetSnapshot vs model + walk from snapshot", "After every history step GetSnapshot equals the last accepted upload (id and bytes) and the chain is walked from it to the latest.", "model trusted", "§8 C11"),
  "C12": ("exploration", "deterministic simulation: simulated clock jumps + swarm-chosen targets vs exact i128 thresholds", "Urgency of every accepted AddVersion compared with exact thresholds over swarm-chosen targets (incl. integer extremes), clock jumps biased to thresholds, counters from real histories or seeded through the storage seam.", "counter convention (before/after this request) latched per run; sub-second truncation allowed", "§8 C12"),
  "C14": ("exploration", "deterministic simulation: HTTP responses decoded and compared with model outcome", "Every HTTP response is decoded (status, protocol headers, content type, body) and compared with the model outcome incl. absence of inapplicable headers.", "requests enter at actix service layer", "§8 C14"),
